@@ -70,9 +70,10 @@ def run(cmd, timeout=1800, cwd=ROOT, env=None, input=None):
 def run_cargo(cmd, **kw):
     """subprocess.run for cargo with an empty stdin, retried when cargo's own rustc probe fails (observed
     transiently on this machine under load: 'failed to run `rustc` to learn about target-specific information')"""
-    kw.setdefault('stdin', subprocess.DEVNULL)
     kw.setdefault('capture_output', True)
     kw.setdefault('text', True)
+    if 'stdin' not in kw and 'input' not in kw:
+        kw['input'] = '' if kw.get('text') else b''      # an empty pipe, not /dev/null (which was found to be a regular file in this sandbox)
     for attempt in range(4):
         p = subprocess.run(cmd, **kw)
         if p.returncode == 0 or 'to learn about target-specific information' not in (p.stderr or ''):
